@@ -32,7 +32,7 @@ def run(tier, seed, replay=None):
     except vbuild.BuildError as e:
         ob["ok"] = False
         ob["failures"].append("correspondence harness does not compile against the current source: " + str(e)[-400:])
-        return ck.finish(ob, rule="one pair in three is evaluated through PolarSite objects with the same permanent moments and a non-zero induced dipole. -")
+        return ck.finish(ob, rule="segments of 1-3 sites with random ranks: CalcStaticEnergy(A,B) and (B,A) against the sum of the site-pair energies (tags seg:*). one pair in three is evaluated through PolarSite objects with the same permanent moments and a non-zero induced dipole. -")
     if not ob.get("driver_ok", True):
         return ck.finish(ob, rule="-")
     if False and replay:
